@@ -4,6 +4,7 @@ import copy
 import ckprop
 import genck
 import implck
+import implinv
 from ckprop import shrink_candidates  # noqa: F401
 
 DESCRIPTION = ("Lean: Props/C13.lean (callAsync o = callSync (awaited o) up to await events; coroutine conditions/captures "
@@ -46,11 +47,33 @@ def cases(tier, rng):
                 if x["coroFn"] and ckprop.ans_kind(a) == "coro":
                     cap[x["id"]] = a["coro"]["inner"]
         c["capture"] = [[k, a] for k, a in cap.items()]
+        # some of the conditions returning awaitables return an object with __await__ instead of a coroutine
+        c["awaitableObjects"] = [k for k, a in c["cond"] if ckprop.ans_kind(a) == "coro" and rng.random() < 0.5]
         yield "rnd", c
+    for tc in inv_cases(tier, rng):
+        yield tc
+
+
+def inv_cases(tier, rng):
+    """class invariants whose conditions return plain values or coroutines (all inner values given): the first
+    coroutine reached must be rejected with ValueError, never taken as truthy"""
+    import itertools
+    for n in (1, 2, 3):
+        for kinds in itertools.product(["T", "CT", "CF"], repeat=n):
+            for with_self in itertools.product([True, False], repeat=n):
+                contracts, cond = [], []
+                for i, (k, ws) in enumerate(zip(kinds, with_self), 1):
+                    contracts.append({"id": i, "args": ["self"] if ws else [], "mandatory": ["self"] if ws else [], "coroFn": False,
+                                      "err": "none"})
+                    a = {"val": {"v": 100 + i, "t": "truthy"}}
+                    if k != "T":
+                        a = {"coro": {"inner": {"val": {"v": 100 + i, "t": "truthy" if k == "CT" else "falsy"}}}}
+                    cond.append([i, a])
+                yield "invariants", {"dom": "invariants", "contracts": contracts, "self": 5, "cond": cond, "fac": [], "msg": []}
 
 
 def search_cases(rng, hint, n):
-    return list(cases("quick", rng))[-n:]
+    return [tc for tc in list(cases("quick", rng))[-n:] if tc[1].get("dom") != "invariants"]
 
 
 def awaited(case):
@@ -74,14 +97,20 @@ def as_sync(case):
 
 
 def driver_inputs(case):
+    if case.get("dom") == "invariants":
+        return [case]
     return [case, awaited(case), as_sync(case)]
 
 
 def run_impl(case):
+    if case.get("dom") == "invariants":
+        return implinv.run(case)
     return {"async": implck.run(case), "awaited_sync": implck.run(awaited(case)), "sync": implck.run(as_sync(case))}
 
 
 def model_view(case, mos):
+    if case.get("dom") == "invariants":
+        return {"define": ["ok"], "trace": mos[0]["trace"], "out": mos[0]["out"]}
     return {"async": implck.model_view(case, mos[0]), "awaited_sync": implck.model_view(case, mos[1]),
             "sync": implck.model_view(case, mos[2])}
 
@@ -91,6 +120,8 @@ def _strip(tr):
 
 
 def project(case, obs):
+    if case.get("dom") == "invariants":
+        return [obs.get("define"), obs.get("trace"), obs.get("out")]
     out = []
     for k in ("async", "awaited_sync", "sync"):
         o = obs[k]
@@ -103,6 +134,19 @@ def project(case, obs):
 
 def spec(case, mos, io):
     fails = []
+    if case.get("dom") == "invariants":
+        if io.get("define") != ["ok"]:
+            return ["definition raised %s" % (io.get("define"),)]
+        first = next((k for k, a in case["cond"] if ckprop.ans_kind(a) == "coro"), None)
+        if first is None:
+            if io["out"] != ["ret", None]:
+                fails.append("all invariants hold, the constructor ended with %s" % (io["out"],))
+        elif not (io["out"][0] == "raise" and io["out"][1][0] == "ValueError" and io["out"][1][2] == first):
+            fails.append("invariant %d returns a coroutine: expected it to be rejected with ValueError, got %s after evaluations %s"
+                         % (first, io["out"], io["trace"]))
+        if any(ev == ["bool", k] for ev in io["trace"] for k, a in case["cond"] if ckprop.ans_kind(a) == "coro"):
+            fails.append("a coroutine returned by an invariant was truth-tested")
+        return fails
     for k in ("async", "awaited_sync", "sync"):
         if io[k].get("define", ["ok"]) != ["ok"]:
             return ["definition raised %s" % (io[k]["define"],)]
@@ -149,12 +193,17 @@ def classify(case, mos, io, fails):
 
 
 def nontrivial_key(case, mos):
+    if case.get("dom") == "invariants":
+        return repr((case["contracts"], case["cond"]))
     if not any(l["pre"] or l["posts"] for l in case["levels"]):
         return None
     return ckprop.shape_key(case) + (tuple(x["coroFn"] for lv in case["levels"] for x in lv["pre"] + lv["posts"] + lv["snaps"]),)
 
 
 def stats(case, mos, io, dist):
+    if case.get("dom") == "invariants":
+        dist["kind:invariants"] += 1
+        return
     dist["kind:" + case["kind"]] += 1
     n = sum(1 for lv in case["levels"] for x in lv["pre"] + lv["posts"] + lv["snaps"] if x["coroFn"])
     dist["coroFns:%d" % min(n, 3)] += 1
